@@ -3,6 +3,7 @@ package main
 import (
 	"fmt"
 	"math/rand"
+	"net"
 	"os"
 	"path/filepath"
 	"regexp"
@@ -30,6 +31,60 @@ func streamC09(env *runEnv) {
 		dur = 120 * time.Second
 	}
 	deadline := time.Now().Add(dur)
+	// two tunnels that live for the whole run and never go quiet: whatever the gateway does on a timer
+	// (idle supervision, metrics, clean-up) meets a tunnel whose packet loop is busy
+	var longWG sync.WaitGroup
+	for li, transport := range []string{"ws", "legacy"} {
+		longWG.Add(1)
+		go func(li int, transport string) {
+			defer longWG.Done()
+			b := newTagBackend([]byte(strings.Repeat("<long-lived-host>", 4096)))
+			b.piece, b.pace = 512, 50*time.Millisecond
+			defer b.close()
+			host, port := splitHostPort(b.addr)
+			c, err := openTunnel(srv.inst, tunnelScript{transport: transport, id: fmt.Sprintf("{c09-long-%d-%d}", env.seed, li)})
+			if err != nil {
+				return
+			}
+			defer c.close()
+			stop := make(chan struct{})
+			go func() {
+				for {
+					if _, err := c.recv(500 * time.Millisecond); err != nil {
+						if ne, ok := err.(net.Error); !(ok && ne.Timeout()) {
+							return
+						}
+					}
+					select {
+					case <-stop:
+						return
+					default:
+					}
+				}
+			}()
+			for _, p := range [][]byte{
+				packet(ptHandshake, handshakeBody(1, 0, 0, 2)),
+				packet(ptTunnelCreate, tunnelCreateBody(0, fmt.Sprintf("ok|long%d|%s", li, b.addr), true)),
+				packet(ptTunnelAuth, tunnelAuthBody("pc")),
+				packet(ptChannelCreate, channelCreateBody(host, port)),
+			} {
+				c.send(p)
+				time.Sleep(30 * time.Millisecond)
+			}
+			for k := 0; time.Now().Before(deadline); k++ {
+				if k%2 == 0 {
+					c.send(packet(ptKeepalive, nil))
+				} else {
+					c.send(packet(ptData, dataBody([]byte("still-here"))))
+				}
+				time.Sleep(20 * time.Millisecond)
+			}
+			c.send(packet(ptCloseChannel, nil))
+			time.Sleep(100 * time.Millisecond)
+			close(stop)
+		}(li, transport)
+	}
+	defer longWG.Wait()
 	round := 0
 	frames, badFrames, tunnels := 0, 0, 0
 	var mu sync.Mutex
